@@ -72,6 +72,23 @@ theorem c13_complete (g : Graph) (hA : AliasOK g) (tr : MapT) (hC : Closed g tr.
     | step _ _ _ hav => exact hav
   exact (hd.processed hA c hm hn hav).2 hid
 
+/-- `AliasOK` cannot be dropped from `c13_complete`: CID 1 is the raw-codec view and CID 2 the dag-pb view of
+one block (same tracker key 1); the root 0 links the raw view first. The walk emits the root and the raw
+view, skips the dag-pb view as already seen, and the child 3 — reachable through available blocks — is
+never emitted under any alias (known finding `c13-multihash-alias-subtree-skipped`). -/
+theorem c13_complete_counterexample :
+    let g : Graph := { n := 4, key := fun c => if c = 2 then 1 else c,
+                       links := fun c => match c with | 0 => some [1, 2] | 2 => some [3] | _ => some [],
+                       loc := fun _ => true, ident := fun _ => false }
+    (walk g 0 {} 0).map (·.out) = some [0, 1] ∧ Reach g 0 3 ∧ ¬ AliasOK g := by
+  refine ⟨by decide, ?_, ?_⟩
+  · exact Reach.step (b := 2) (ks := [3])
+      (Reach.step (b := 0) (ks := [1, 2]) (Reach.refl ⟨rfl, by decide⟩) rfl (by decide) ⟨rfl, by decide⟩)
+      rfl (by decide) ⟨rfl, by decide⟩
+  · intro h
+    have := (h 1 2 rfl).2.2
+    simp [Graph.fetch] at this
+
 /-- Fresh exact tracker, no two CIDs sharing a key: the emitted CIDs are *exactly* the non-identity CIDs
 reachable from the root through locally available, fetchable blocks — each exactly once. -/
 theorem c13_exact (g : Graph) (hk : ∀ c, g.key c = c) (root : Nat) (r : St) (h : walk g 0 {} root = some r) :
